@@ -97,6 +97,14 @@ func main() {
 	r.Extra["reachable_from_sync"] = len(c.RSync)
 	r.Extra["reachable_from_api"] = len(c.RAPI)
 	fn(c, r)
+	if *tier == "thorough" && os.Getenv("PEGCHECK_NO_CONTROLS") == "" {
+		cs := runControls(*repo, *verif, *prop)
+		if len(cs) > 0 {
+			r.Extra["controls"] = cs
+			r.Extra["controls_summary"] = controlsSummary(cs)
+			fmt.Println("controls (evidence only):", controlsSummary(cs))
+		}
+	}
 	code := r.finish(*verif, seed)
 	pprof.StopCPUProfile()
 	os.Exit(code)
